@@ -125,18 +125,19 @@ impl DiskCache {
 }
 
 type SchedFn = Box<dyn Fn(&DiskCache, &'static str) + Send + Sync>;
-static SCHEDULE_HOOK: Mutex<Option<SchedFn>> = Mutex::new(None);
+static SCHEDULE_HOOK: Mutex<Option<Arc<SchedFn>>> = Mutex::new(None);
 
 /// Installs (or clears) the callback run at every schedule point.
 pub fn set_schedule_hook(f: Option<SchedFn>) {
-    *SCHEDULE_HOOK.lock().unwrap() = f;
+    *SCHEDULE_HOOK.lock().unwrap() = f.map(Arc::new);
 }
 
 /// A schedule point: a place outside the state lock where another thread's operation may be
 /// interleaved.  Proof harnesses stub this function; replay tests install a callback.
 pub fn schedule_point(cache: &DiskCache, name: &'static str) {
-    let g = SCHEDULE_HOOK.lock().unwrap();
-    if let Some(f) = g.as_ref() {
+    // the callback may itself run cache operations that reach schedule points: do not hold the lock while calling it
+    let f = SCHEDULE_HOOK.lock().unwrap().clone();
+    if let Some(f) = f {
         f(cache, name);
     }
 }
